@@ -3,6 +3,7 @@
 use super::c01::check_flat;
 use super::c11::{self, Entry, Expect};
 use super::c15;
+use super::c20;
 use crate::ctx::Case;
 use crate::json::{hex_short, J};
 use crate::prng::{fnv, fnv_add, Rng};
@@ -13,7 +14,7 @@ use crate::refs::loc::{self, Expected, GameCfg, Loc, LANGS};
 use crate::refs::lz::{self, Class, Kind};
 use crate::refs::strings::gen_ident;
 use crate::refs::text::read_text_image;
-use mila::{Game, Language, LayeredFilesystem, TextArchive, TextArchiveFormat};
+use mila::{Game, Language, LayeredFilesystem, TextArchive, TextArchiveFormat, Texture};
 use std::collections::{BTreeMap, BTreeSet};
 use std::path::{Path, PathBuf};
 
@@ -118,7 +119,7 @@ pub struct World {
 }
 
 const DIRS: [&str; 7] = ["m", "data", "Subdir", "a", "x.y", "zz", "scripts"];
-const FILES: [&str; 12] = ["GameData.bin.lz", "one.bin", "two.txt", "mess.cmp", "f.cms", "plain", "three.txt", "arc.arc", "pack.bin", "t.bin.lz", "GameData.bin", "n-1_@.dat"];
+const FILES: [&str; 16] = ["GameData.bin.lz", "one.bin", "two.txt", "mess.cmp", "f.cms", "plain", "three.txt", "arc.arc", "pack.bin", "t.bin.lz", "GameData.bin", "n-1_@.dat", "tex.ctpk", "model.bch", "ui.bcres", "img.tpl"];
 
 pub fn gen_dir(rng: &mut Rng) -> String {
     let d = rng.range(0, 3);
@@ -182,6 +183,33 @@ fn gen_archive_content(rng: &mut Rng, be: bool) -> RefArchive {
     m
 }
 
+fn monitor_guard<T>(f: impl FnOnce() -> T) -> Option<T> {
+    crate::monitor::guarded(f).ok()
+}
+
+pub fn tex_kind_of(p: &str) -> Option<c20::Kind> {
+    if p.ends_with(".ctpk") {
+        Some(c20::Kind::Ctpk)
+    } else if p.ends_with(".bch") {
+        Some(c20::Kind::Bch)
+    } else if p.ends_with(".bcres") {
+        Some(c20::Kind::Cgfx)
+    } else if p.ends_with(".tpl") {
+        Some(c20::Kind::Tpl)
+    } else {
+        None
+    }
+}
+
+fn direct_textures(k: c20::Kind, raw: &[u8]) -> Result<Vec<Texture>, String> {
+    match k {
+        c20::Kind::Ctpk => mila::ctpk::read(raw).map_err(|e| e.to_string()),
+        c20::Kind::Bch | c20::Kind::BchNew => mila::bch::read(raw).map_err(|e| e.to_string()),
+        c20::Kind::Cgfx => mila::cgfx::read(raw).map_err(|e| e.to_string()),
+        c20::Kind::Tpl => mila::tpl::Tpl::extract_textures(raw).map_err(|e| e.to_string()),
+    }
+}
+
 impl World {
     pub fn new(c: &mut Case, scratch: &Path, rng: &mut Rng, focus: Focus) -> Result<World, String> {
         let base = scratch.join(format!("case{}", c.idx));
@@ -226,6 +254,16 @@ impl World {
                     files.retain(|(n, _)| !n.is_empty() && n != "Count" && n != "Info" && n != "Data");
                     let img = arc_build(&files, &ArcPlan { padded_header: rng.bool(), decoy_labels: true, ..Default::default() }, rng);
                     known_arcs.push((img.clone(), files));
+                    img
+                } else if p.ends_with(".ctpk") || p.ends_with(".bch") || p.ends_with(".bcres") || p.ends_with(".tpl") {
+                    let k = tex_kind_of(&p).unwrap();
+                    let nt = rng.range(0, 3);
+                    let texs: Vec<crate::refs::texcont::Tex> = (0..nt).map(|_| c20::gen_tex(rng, k, true)).collect();
+                    let mut img = c20::build(k, &texs, rng, rng.clone().bool()).bytes;
+                    if rng.chance(1, 6) && !img.is_empty() {
+                        let cut = rng.below(img.len());
+                        img.truncate(cut);
+                    }
                     img
                 } else if p.ends_with("pack.bin") {
                     let files = c15::gen_files(rng, 4, 40);
@@ -333,6 +371,7 @@ pub enum FOp {
     ReadText(String, bool),
     ReadPack(String, bool),
     ReadArc(String, bool),
+    ReadTex(String, bool),
 }
 
 impl FOp {
@@ -468,7 +507,7 @@ pub fn exec(c: &mut Case, w: &mut World, op: &FOp) -> bool {
         // safety net: the workload only ever uses relative paths of plain components
         let p = match op {
             FOp::Write(p, _, _) | FOp::Read(p, _) | FOp::Exists(p, _) | FOp::FileExists(p, _) | FOp::DirExists(p, _) | FOp::Resolve(p, _) | FOp::CreateDir(p, _) | FOp::List(p, _, _) | FOp::Subdirs(p, _)
-            | FOp::WriteArchive(p, _, _) | FOp::ReadArchive(p, _) | FOp::WriteText(p, _, _) | FOp::ReadText(p, _) | FOp::ReadPack(p, _) | FOp::ReadArc(p, _) => p,
+            | FOp::WriteArchive(p, _, _) | FOp::ReadArchive(p, _) | FOp::WriteText(p, _, _) | FOp::ReadText(p, _) | FOp::ReadPack(p, _) | FOp::ReadArc(p, _) | FOp::ReadTex(p, _) => p,
         };
         if p.starts_with('/') || p.split('/').any(|c| c == ".." || c == ".") || p.contains("//") {
             c.st.harness_errors.push(format!("generator produced a non-plain path {:?}", p));
@@ -490,7 +529,7 @@ pub fn exec(c: &mut Case, w: &mut World, op: &FOp) -> bool {
     let ctxs = |m: &str, w: &World| format!("{}: {} | {}", what, m, w.describe());
     let (path, localized) = match op {
         FOp::Write(p, _, l) | FOp::Read(p, l) | FOp::Exists(p, l) | FOp::FileExists(p, l) | FOp::DirExists(p, l) | FOp::Resolve(p, l) | FOp::CreateDir(p, l) | FOp::List(p, _, l) | FOp::Subdirs(p, l)
-        | FOp::WriteArchive(p, _, l) | FOp::ReadArchive(p, l) | FOp::WriteText(p, _, l) | FOp::ReadText(p, l) | FOp::ReadPack(p, l) | FOp::ReadArc(p, l) => (p.clone(), *l),
+        | FOp::WriteArchive(p, _, l) | FOp::ReadArchive(p, l) | FOp::WriteText(p, _, l) | FOp::ReadText(p, l) | FOp::ReadPack(p, l) | FOp::ReadArc(p, l) | FOp::ReadTex(p, l) => (p.clone(), *l),
     };
     let ap = w.actual(&path, localized);
     c.sit(if localized { "localized_call" } else { "unlocalized_call" });
@@ -501,7 +540,7 @@ pub fn exec(c: &mut Case, w: &mut World, op: &FOp) -> bool {
     // ------------------------------------------------------------------ perform + result oracle
     let mut top_expected: Option<Tree> = Some(before[w.top()].clone()); // None = adopt (validated separately)
     match op {
-        FOp::Read(..) | FOp::ReadArchive(..) | FOp::ReadText(..) | FOp::ReadPack(..) | FOp::ReadArc(..) => {
+        FOp::Read(..) | FOp::ReadArchive(..) | FOp::ReadText(..) | FOp::ReadPack(..) | FOp::ReadArc(..) | FOp::ReadTex(..) => {
             let raw_expect: Option<Result<Vec<u8>, ()>> = match &ap {
                 None => Some(Err(())),
                 Some(ap) => match find_file(w, ap) {
@@ -677,6 +716,48 @@ pub fn exec(c: &mut Case, w: &mut World, op: &FOp) -> bool {
                                         }
                                     }
                                 }
+                            }
+                        }
+                        _ => {}
+                    }
+                }
+                FOp::ReadTex(..) => {
+                    let k = tex_kind_of(&path.trim_end_matches(".lz").trim_end_matches(".cmp").to_string()).unwrap_or(c20::Kind::Ctpk);
+                    type TexMap = std::collections::BTreeMap<String, (usize, usize, Vec<u8>)>;
+                    let to_map = |v: Vec<Texture>| -> TexMap { v.into_iter().map(|t| (t.filename.clone(), (t.width, t.height, t.pixel_data))).collect() };
+                    let r: Option<Result<TexMap, String>> = c.lib(&what, || match k {
+                        c20::Kind::Ctpk => w.fs.read_ctpk_textures(&path, localized).map(|m| m.into_iter().map(|(n, t)| (n, (t.width, t.height, t.pixel_data))).collect()).map_err(|e| e.to_string()),
+                        c20::Kind::Bch | c20::Kind::BchNew => w.fs.read_bch_textures(&path, localized).map(|m| m.into_iter().map(|(n, t)| (n, (t.width, t.height, t.pixel_data))).collect()).map_err(|e| e.to_string()),
+                        c20::Kind::Cgfx => w.fs.read_cgfx_textures(&path, localized).map(|m| m.into_iter().map(|(n, t)| (n, (t.width, t.height, t.pixel_data))).collect()).map_err(|e| e.to_string()),
+                        c20::Kind::Tpl => w.fs.read_tpl_textures(&path, localized).map(|v| v.into_iter().enumerate().map(|(i, t)| (format!("#{}", i), (t.width, t.height, t.pixel_data))).collect()).map_err(|e| e.to_string()),
+                    });
+                    match (r, &raw_expect) {
+                        (None, _) => ok = false,
+                        (Some(Ok(_)), Some(Err(()))) => {
+                            c.fail("typed", "read_textures_should_fail", ctxs("returned Ok but the byte-level read must fail", w));
+                            ok = false;
+                        }
+                        (Some(r), Some(Ok(raw))) => {
+                            // byte-level read composed with the stand-alone reader
+                            let direct = monitor_guard(|| direct_textures(k, raw));
+                            match (direct, r) {
+                                (Some(Ok(v)), Ok(got)) => {
+                                    c.sit("read_textures_conforming");
+                                    let exp: TexMap = if k == c20::Kind::Tpl { v.into_iter().enumerate().map(|(i, t)| (format!("#{}", i), (t.width, t.height, t.pixel_data))).collect() } else { to_map(v) };
+                                    if got != exp {
+                                        c.fail("typed", "read_textures_content", ctxs(&format!("textures differ from the stand-alone reader applied to read(p): {:?} vs {:?}", got.keys().collect::<Vec<_>>(), exp.keys().collect::<Vec<_>>()), w));
+                                        ok = false;
+                                    }
+                                }
+                                (Some(Ok(v)), Err(e)) => {
+                                    c.fail("typed", "read_textures_err", ctxs(&format!("returned Err({}) although the stand-alone reader accepts read(p) ({} textures)", e, v.len()), w));
+                                    ok = false;
+                                }
+                                (Some(Err(_)), Ok(got)) => {
+                                    c.fail("typed", "read_textures_should_fail", ctxs(&format!("returned Ok({} textures) although the stand-alone reader rejects read(p)", got.len()), w));
+                                    ok = false;
+                                }
+                                _ => {}
                             }
                         }
                         _ => {}
@@ -1035,6 +1116,7 @@ pub fn gen_op(rng: &mut Rng, w: &World, focus: Focus) -> FOp {
         FOp::ReadText(p, l) => FOp::ReadText(rel(p), l),
         FOp::ReadPack(p, l) => FOp::ReadPack(rel(p), l),
         FOp::ReadArc(p, l) => FOp::ReadArc(rel(p), l),
+        FOp::ReadTex(p, l) => FOp::ReadTex(rel(p), l),
         FOp::Exists(p, l) => FOp::Exists(p.trim_start_matches('/').to_string(), l),
         FOp::DirExists(p, l) => FOp::DirExists(p.trim_start_matches('/').to_string(), l),
         FOp::Resolve(p, l) => FOp::Resolve(p.trim_start_matches('/').to_string(), l),
@@ -1116,7 +1198,19 @@ fn gen_op_raw(rng: &mut Rng, w: &World, focus: Focus) -> FOp {
         }
         17 => FOp::ReadText(path, localized),
         18 => FOp::ReadPack(path, localized),
-        _ => FOp::ReadArc(path, localized),
+        _ => {
+            if tex_kind_of(&path).is_some() || rng.chance(1, 3) {
+                let texp: Vec<String> = existing.iter().filter(|p| tex_kind_of(p).is_some()).cloned().collect();
+                let p = if tex_kind_of(&path).is_some() || texp.is_empty() { path } else { rng.pick(&texp).clone() };
+                if tex_kind_of(&p).is_some() {
+                    FOp::ReadTex(p, localized)
+                } else {
+                    FOp::ReadArc(p, localized)
+                }
+            } else {
+                FOp::ReadArc(path, localized)
+            }
+        }
     }
 }
 
